@@ -24,8 +24,28 @@ func buildBytes(b Batch, norm NormFn, mode uint32) ([]byte, error) {
 	return Persist(seg)
 }
 
+// manyTermsBatch: one field with 60..600 distinct terms sharing suffixes (a
+// term dictionary big enough for the FST builder's node cache to matter).
+func manyTermsBatch(t *rapid.T, label string) Batch {
+	k := rapid.SampledFrom([]int{60, 200, 600}).Draw(t, label+":nTerms")
+	nd := rapid.IntRange(1, 4).Draw(t, label+":nDocs")
+	b := make(Batch, nd)
+	for d := range b {
+		f := Field{Name: "a"}
+		for i := 0; i < k; i++ {
+			f.Terms = append(f.Terms, Term{T: fmt.Sprintf("w%03d-%d-commonsuffix", i, d%2), Freq: 1})
+			f.Len++
+		}
+		b[d].Fields = []Field{f}
+	}
+	return b
+}
+
 func genAnyBatch(t *rapid.T, sc *Scenario, label string) (Batch, string) {
-	switch rapid.IntRange(0, 5).Draw(t, label+":kind") {
+	switch rapid.IntRange(0, 6).Draw(t, label+":kind") {
+	case 6:
+		b := manyTermsBatch(t, label)
+		return b, fmt.Sprintf("many-terms{%d docs x %d terms}", len(b), len(b[0].Fields[0].Terms))
 	case 0:
 		p := GenBlocks(t)
 		return p.Batch(sc), p.String()
@@ -87,6 +107,15 @@ func c14Prop(st *CaseStats) func(t *rapid.T) {
 				runtime.GC()
 				runtime.GC()
 				labels = append(labels, "cold-rebuild")
+				if rapid.Bool().Draw(t, "tinyAfterGC") {
+					// the first build on the emptied pool is a tiny one: pooled helpers get sized by it
+					hist += "+tinyBuild"
+					tiny := Batch{{Fields: []Field{{Name: "a", Len: 1, Terms: []Term{{T: "x", Freq: 1}}}}}}
+					if _, err := buildBytes(tiny, sc.Norm, 1025); err != nil {
+						t.Fatalf("%s history%s: %v", desc, hist, err)
+					}
+					labels = append(labels, "tiny-build-on-empty-pool")
+				}
 			default:
 				k := rapid.IntRange(2, 8).Draw(t, "k")
 				type job struct {
